@@ -248,8 +248,12 @@ def run(check, an: Analysis):
             want = 'self._volatile_children' if (vol and key_truth(vol[-1])) \
                 else 'self._children'
             sched_ok = len(sched) == 1 and _schedules_runner(path.events[sched[0]], dfn)
-            ok = len(created) == 1 and bool(open_) and sched_ok and \
-                len(appends) == 1 and appends[0][1] == want and bool(vol)
+            listed = len(appends) == 1 and appends[0][1] == want and bool(vol)
+            if len(appends) == 1 and not vol:
+                # the list chosen by a table lookup on the same flag
+                listed = rules.bool_indexed(appends[0][1]) == (
+                    'volatile', 'self._children', 'self._volatile_children')
+            ok = len(created) == 1 and bool(open_) and sched_ok and listed
             check.instance('R', 'do:registered/%s' % ('volatile' if want.endswith(
                 'volatile_children') else 'regular'), ok, where_fn(dfn),
                 'one Task created while open (%s), its runner scheduled once (%s), '
@@ -267,9 +271,13 @@ def run(check, an: Analysis):
                and e.get('key') == ('truth', 'child.__volatile__')]
         want = 'self._volatile_children' if (vol and key_truth(vol[-1])) \
             else 'self._children'
+        agree = removes == [want] and bool(vol)
+        if len(removes) == 1 and not vol:
+            agree = rules.bool_indexed(removes[0]) == (
+                'child.__volatile__', 'self._children', 'self._volatile_children')
         check.instance('R', '__child_finished__:removes/%s' % (
             'volatile' if want.endswith('volatile_children') else 'regular'),
-            removes == [want] and bool(vol), where_fn(finished.fn),
+            agree, where_fn(finished.fn),
             'a finished child leaves exactly the list `do` put it in: %s' % removes,
             path=rules.path_lines(path))
     check.floor('R', 5)
